@@ -10,6 +10,17 @@ import (
 )
 
 func init() {
+	replayers["C08/sinks"] = func(c *Ctx, raw json.RawMessage) string {
+		var cs struct {
+			R                []byte
+			Bytes            bool
+			Impl, Pre, Shape int
+		}
+		json.Unmarshal(raw, &cs)
+		redact.RegisterRedactErrorFn(scriptedHook)
+		defer redact.RegisterRedactErrorFn(nil)
+		return c08Sink(redact.RedactableString(cs.R), cs.Bytes, cs.Impl, cs.Pre, cs.Shape)
+	}
 	checks["C08"] = checkC08
 	rules["C08"] = "every redactable obtained from the library by <=2 rounds of printing/joining x every directive (minus %T,%p) at top level (identity) and inside 14 holder shapes (homomorphism against a marker-free placeholder), as string and as bytes; Sprint(Sprint(a))==Sprint(a) over the universe; Join/JoinTo/Sprintf concatenation laws over all lists of <=3; distinct = distinct outputs"
 	replayers["C08/identity"] = func(c *Ctx, raw json.RawMessage) string {
@@ -265,6 +276,67 @@ func c08Concat(rs []int, di int, seen func(string)) string {
 	return ""
 }
 
+// --- sinks: a redactable handed to Print/Printf of every SafeWriter implementation, in every state the sink may be
+// in (fresh, after a safe write, after an unsafe write, after a Print), alone and with neighbours, in both forms.
+
+var c08SinkPrefixes = []struct {
+	Op  *Op
+	Out string
+}{
+	{nil, ""},
+	{func() *Op { o := mkOp(kSafeString, "s"); return &o }(), "s"},
+	{func() *Op { o := mkOp(kUnsafeString, "u"); return &o }(), mStart + "u" + mEnd},
+	{func() *Op { o := mkPrint(1); return &o }(), mStart + "1" + mEnd},
+	{func() *Op { o := mkOp(kUnsafeString, ""); return &o }(), ""},
+}
+
+var c08SinkShapes = []string{"Print(r)", "Print(r, r)", "Printf(%v, r)", "Printf(%s|%s, r, r)", "Print(r) Print(r)", "Print(r, 1)"}
+
+func c08Sink(r redact.RedactableString, asBytes bool, impl, pre, shape int) string {
+	var val interface{} = r
+	if asBytes {
+		val = redact.RedactableBytes(r)
+	}
+	var body []Op
+	var want string
+	switch shape {
+	case 0:
+		body, want = []Op{mkPrint(val)}, string(redact.Sprint(val))
+	case 1:
+		body, want = []Op{mkPrint(val, val)}, string(redact.Sprint(val, val))
+	case 2:
+		body, want = []Op{mkPrintf("%v", val)}, string(redact.Sprintf("%v", val))
+	case 3:
+		body, want = []Op{mkPrintf("%s|%s", val, val)}, string(redact.Sprintf("%s|%s", val, val))
+	case 4:
+		body, want = []Op{mkPrint(val), mkPrint(val)}, string(redact.Sprint(val))+string(redact.Sprint(val))
+	default:
+		body, want = []Op{mkPrint(val, 1)}, string(redact.Sprint(val, 1))
+	}
+	var ops []*Op
+	if p := c08SinkPrefixes[pre]; p.Op != nil {
+		ops = append(ops, p.Op)
+	}
+	for i := range body {
+		ops = append(ops, &body[i])
+	}
+	want = c08SinkPrefixes[pre].Out + want
+	switch impl {
+	case implCtxBefore:
+		want = string(redact.Sprintf("%s ", ctxBeforeU.S)) + want
+	case implCtxAfter:
+		want = want + string(redact.Sprintf("|%s", ctxAfterU.S))
+	}
+	var got []byte
+	if pv, pan := recoverTo(func() { got = runImpl(impl, ops) }); pan {
+		return fmt.Sprintf("%s: %s after %v on %q (bytes=%v) panics: %v", implNames[impl], c08SinkShapes[shape], opNames(ops[:len(ops)-len(body)]), r, asBytes, pv)
+	}
+	if string(Norm(got)) != string(Norm([]byte(want))) {
+		return fmt.Sprintf("%s: ops %v with r=%q (bytes=%v) give %q, want %q (what came before, then the redactable as top-level Sprint/Sprintf prints it; up to merging of adjacent envelopes)", implNames[impl], opNames(ops), r, asBytes, got, want)
+	}
+	return ""
+}
+
 func checkC08(c *Ctx) {
 	seeds := c08Seeds()
 	sp := quickDirectives()
@@ -300,6 +372,23 @@ func checkC08(c *Ctx) {
 			lists = append(lists, []int{i, j})
 		}
 	}
+	redact.RegisterRedactErrorFn(scriptedHook)
+	nPre, nSh := len(c08SinkPrefixes), len(c08SinkShapes)
+	c.Section("C08/sinks", map[string]interface{}{"redactables": len(seeds), "forms": 2, "implementations": implNames, "sink_states": nPre, "call_shapes": c08SinkShapes}, len(seeds)*nImpl, func(i int, w *Worker) {
+		r, impl := seeds[i/nImpl], i%nImpl
+		for pre := 0; pre < nPre; pre++ {
+			for sh := 0; sh < nSh; sh++ {
+				for _, asBytes := range []bool{false, true} {
+					w.Eval()
+					if dt := c08Sink(r, asBytes, impl, pre, sh); dt != "" {
+						w.Fail("sink:"+implNames[impl], map[string]interface{}{"R": []byte(r), "Bytes": asBytes, "Impl": impl, "Pre": pre, "Shape": sh}, dt)
+					}
+				}
+			}
+		}
+		w.SeenS(string(r))
+	})
+	redact.RegisterRedactErrorFn(nil)
 	c.Section("C08/reprint", map[string]interface{}{"argument_lists": len(lists), "rounds": 3}, len(lists), func(i int, w *Worker) {
 		w.Eval()
 		if d := c08Reprint(lists[i], w.SeenS); d != "" {
